@@ -357,7 +357,8 @@ pub fn judge_responses(frames: &[SFrame], limit: u32, out: &[u8], closed: bool, 
     if ri < resps.len() {
         let r = wire::parse_resp(&resps[ri]).ok();
         let after_quit = frames.iter().any(|f| matches!(f.kind, Kind::Quit | Kind::QuitQ));
-        let props: Vec<&'static str> = if after_quit { vec!["C12"] } else { vec!["C12", "C10"] };
+        let faulty = frames.iter().any(|f| matches!(f.kind, Kind::BadHeader | Kind::Truncated));
+        let props: Vec<&'static str> = if after_quit { vec!["C12"] } else if faulty { vec!["C18", "C10", "C12"] } else { vec!["C12", "C10"] };
         v.push((props, format!("{} response(s) beyond what the request stream calls for, first: {:?}", resps.len() - ri, r.map(|r| (r.opcode, r.opaque, r.status)))));
     }
     let must_close = frames.iter().any(|f| matches!(f.kind, Kind::Quit | Kind::QuitQ | Kind::BadHeader));
@@ -450,6 +451,25 @@ pub fn run(r: &mut Runner, level: &str, profile: &str, seed: u64, count: u64, ti
                             if d2 != dump {
                                 let prog = r.prog_start.len() - 1;
                                 r.violations.push((prog, vec!["C12"], s2, format!("requests received after quit were executed: store after the whole stream [{}] differs from the store after the stream cut behind the quit [{}]; whole stream: {}", trunc(&dump), trunc(&d2), hex(&stream))));
+                            }
+                        }
+                    }
+                    // P18 / P10: a truncated or invalid tail is never executed: the store must equal that of the
+                    // complete frames alone
+                    if let Some(last) = frames.last() {
+                        if matches!(last.kind, Kind::BadHeader | Kind::Truncated) && level == "conn" {
+                            let upto: Vec<u8> = frames[..frames.len() - 1].iter().flat_map(|f| f.bytes.clone()).collect();
+                            let s2 = r.ops.len();
+                            r.exec(&format!("new {}", limit));
+                            r.exec("conn");
+                            if !upto.is_empty() {
+                                r.exec(&format!("chunk {}", hex(&upto)));
+                            }
+                            r.exec("eof");
+                            let d2 = r.exec("dump");
+                            if d2 != dump {
+                                let prog = r.prog_start.len() - 1;
+                                r.violations.push((prog, vec!["C18", "C10"], s2, format!("an incomplete or invalid request was executed: store after the faulty stream [{}] differs from the store after its complete requests alone [{}]; faulty stream: {}", trunc(&dump), trunc(&d2), hex(&stream))));
                             }
                         }
                     }
